@@ -594,7 +594,7 @@ func (sp *Specs) parseSpecText(pkg, file, text string) {
 	}
 	// group: top-level items start with func / assume func / pure func / ghost var / lemma / lockinv / axiom / globalinv / typeinv
 	isTop := func(s string) bool {
-		for _, p := range []string{"func ", "assume func ", "pure func ", "ghost var ", "lemma ", "lockinv ", "axiom ", "globalinv ", "typeinv ", "callers ", "jsonfields ", "writers ", "callees ", "fieldtypes "} {
+		for _, p := range []string{"func ", "assume func ", "pure func ", "ghost var ", "lemma ", "lockinv ", "axiom ", "globalinv ", "typeinv ", "callers ", "jsonfields ", "writers ", "callees ", "fieldtypes ", "synchronous "} {
 			if strings.HasPrefix(s, p) {
 				return true
 			}
@@ -710,7 +710,7 @@ func (sp *Specs) parseSpecText(pkg, file, text string) {
 					gname, serves := splitServes(rest[:i])
 					sp.GlobalInvs = append(sp.GlobalInvs, &GlobalInv{Pkg: pkg, Global: gname, Serves: serves, Text: strings.TrimSpace(rest[i+1:]), E: e, Line: n, File: file})
 				}}
-			case strings.HasPrefix(s, "callers ") || strings.HasPrefix(s, "jsonfields ") || strings.HasPrefix(s, "writers ") || strings.HasPrefix(s, "callees ") || strings.HasPrefix(s, "fieldtypes "):
+			case strings.HasPrefix(s, "callers ") || strings.HasPrefix(s, "jsonfields ") || strings.HasPrefix(s, "writers ") || strings.HasPrefix(s, "callees ") || strings.HasPrefix(s, "fieldtypes ") || strings.HasPrefix(s, "synchronous "):
 				kind := strings.Fields(s)[0]
 				pend = &pending{txt: s, n: l.n, set: func(text string, n int) {
 					rest := strings.TrimSpace(strings.TrimPrefix(text, kind))
